@@ -345,6 +345,13 @@ def standard_proof_step(run, modules, allow_bv_decide, extra_targets=(), extra_t
         first = next((l for l in log.split("\n") if l.startswith("error:")), "build failed")
         run.lake_log = log
         run.broken_build = {"targets": targets, "first_error": first, "errors": errs, "log_tail": log[-3000:]}
+        # the obligations exist, none of them counts as discharged while the build is broken
+        try:
+            n = sum(len(theorem_names(os.path.join(LEAN, mod.replace(".", "/") + ".lean"))) for mod in modules) + len(list(extra_theorems))
+        except Exception:       # noqa
+            n = 1
+        run.coverage["obligations"] = max(1, n)
+        run.coverage["discharged"] = 0
         return False
     if bad:
         run.violation("broken-obligation", {"kind": "forbidden-construct"}, "forbidden construct in Lean sources: " + "; ".join(bad[:5]),
